@@ -1,4 +1,5 @@
 import LivesimVerif.Lemmas.Mpd
+import LivesimVerif.Lemmas.Trans
 import LivesimVerif.Props.C04
 /-!
 # C02 — The live MPD and the segment server agree on what is available
@@ -243,5 +244,15 @@ theorem c02_template_uniform (a : Asset) (r : Rep) (d : Nat) (h : Contig r) (hc 
 
 /-- non-vacuity: `testpic_2s` video (4 segments of 180000 ticks, loop 8 s): segment 17 spans [17, 18)·180000 -/
 example : S exAsset exRep 17 = 17 * 180000 ∧ E exAsset exRep 17 = 18 * 180000 := by decide
+
+/-- **tie by translation**: `splitLoops` / `floorDiv`, translated from the current source (`Gen/Trans.lean`, regenerated
+on every run), are the whole loops and the rest that `genTimeline` carries into its wrap counts (`rel / dur`, `rel % dur`;
+everything stays in the rest for a loop of duration 0) -/
+theorem c02_trans_splitLoops (rel L : Nat) :
+    Gen.Trans.splitLoops (rel : Int) (L : Int) =
+      if L = 0 then ((0 : Int), (rel : Int)) else (((rel / L : Nat) : Int), ((rel % L : Nat) : Int)) :=
+  TransTie.splitLoops_eq rel L
+
+theorem c02_trans_floorDiv (n d : Int) (hd : 0 < d) : Gen.Trans.floorDiv n d = n / d := TransTie.floorDiv_eq n d hd
 
 end Core
